@@ -23,7 +23,34 @@ def RU(slice_, nkeys=3, vals=(1, 2), weights=(1,), maxt=3, depth=5):
                 maxt=maxt, depth=depth)
 
 
-# slices by name, quick sizes (measured: 2-15 s each at 8-12 workers)
+# ---------------------------------------------------------------------------
+# model-checking configurations of MC_Sync
+
+
+def S(slice_, nkeys=2, vals=(1, 2), weights=(1,), maxt=2, depth=7, timeout=600, dev=None, flush=2, log_=3):
+    return dict(module="MC_Sync.tla", slice=slice_, nkeys=nkeys, vals=set(vals), weights=set(weights),
+                maxt=maxt, depth=depth, timeout=timeout, dev=dev, flush=flush, log=log_)
+
+
+def constants_smc(c, props, emit=False, real=False, dev=None):
+    d = V.SDEV if dev is None else dev
+    k = {"NKeys": c["nkeys"], "MaxInfo": 3 * c["nkeys"] + 2, "Period": 1280 if real else 6,
+         "Dev": set(c["dev"] if c.get("dev") is not None else d), "Slice": c["slice"], "Vals": c["vals"],
+         "Weights": c["weights"], "MaxT": c["maxt"], "CheckProps": set(props), "Emit": emit,
+         "MaxDepth": c["depth"]}
+    if real:
+        k.update({"RLog": 384, "WLog": 384, "Flush": 64, "MaxRepeats": 4, "SBatch": 500})
+    else:
+        k.update({"RLog": c["log"], "WLog": c["log"], "Flush": c["flush"], "MaxRepeats": 4, "SBatch": 6})
+    return k
+
+
+def RS(slice_, nkeys=2, vals=(1, 2), weights=(1,), maxt=2, depth=5):
+    return dict(module="MC_Sync.tla", slice=slice_, nkeys=nkeys, vals=set(vals), weights=set(weights),
+                maxt=maxt, depth=depth, dev=None, flush=2, log=3)
+
+
+# slices by name, quick sizes (measured: 2-20 s each at 8-12 workers)
 Q = {
     "cap2": U("cap2"),
     "cap2k2": U("cap2", nkeys=2),
@@ -33,6 +60,13 @@ Q = {
     "cap1_ttl0": U("cap1_ttl0", nkeys=2, maxt=2),
     "cap2_tti": U("cap2_tti", nkeys=2, maxt=3),
     "cap_weight2": U("cap_weight", nkeys=2, weights=(0, 1, 2, 5)),
+    # concurrent cache, sequential client, every history up to `depth` calls
+    "s_cap1": S("cap1", depth=6),
+    "s_cap2_w": S("cap2_w", weights=(0, 1, 5), depth=5),
+    "s_cap1_ttl": S("cap1_ttl", depth=6),
+    "s_cap2_tti": S("cap2_tti", depth=6),
+    "s_ttl_tti": S("ttl_tti", depth=6),
+    "s_nocap": S("nocap", depth=6),
 }
 # thorough sizes (minutes; each under its own time limit)
 T = {
@@ -45,27 +79,41 @@ T = {
     "cap2_tti3": U("cap2_tti", nkeys=3, maxt=3, timeout=1200),
     "cap2_ttl_tti_w": U("cap2_ttl_tti_w", nkeys=2, weights=(1, 2), maxt=3, timeout=900),
     "cap1_ttl0": U("cap1_ttl0", nkeys=3, maxt=2, timeout=900),
+    "s_cap1": S("cap1", depth=9, timeout=1500),
+    "s_cap2": S("cap2", depth=8, timeout=1500),
+    "s_cap_unit": S("cap_unit", depth=7, timeout=1500),
+    "s_cap2_w": S("cap2_w", weights=(0, 1, 2, 5), depth=7, timeout=1500),
+    "s_cap_const": S("cap_const", weights=(1, 2), depth=7, timeout=1500),
+    "s_cap1_ttl": S("cap1_ttl", depth=8, timeout=1500),
+    "s_cap2_tti": S("cap2_tti", depth=8, timeout=1500),
+    "s_expiry": S("expiry", depth=7, timeout=1500),
+    "s_cap2_ttl_tti_w": S("cap2_ttl_tti_w", weights=(1, 2), depth=7, timeout=1500),
+    "s_cap1_k3": S("cap1", nkeys=3, depth=7, timeout=1500),
 }
-RQ = [RU("cap2", depth=5), RU("ttl_tti", nkeys=2, depth=5), RU("cap_weight", nkeys=2, weights=(0, 1, 2, 5), depth=4)]
+RQ = [RU("cap2", depth=5), RU("ttl_tti", nkeys=2, depth=5), RU("cap_weight", nkeys=2, weights=(0, 1, 2, 5), depth=4),
+      RS("cap1", depth=5), RS("cap2_ttl_tti_w", weights=(1, 5), depth=4)]
 RT = [RU("cap_unit", depth=6), RU("cap_weight", weights=(0, 1, 2, 5), depth=5), RU("expiry", depth=5, maxt=4),
-      RU("cap_exp", nkeys=2, weights=(1, 2), depth=6), RU("cap_const", nkeys=3, weights=(0, 1, 2), depth=6)]
-VQ = [("unsync-small", 120, 40), ("unsync-mid", 30, 120)]
-VT = [("unsync-small", 2000, 60), ("unsync-mid", 400, 400)]
+      RU("cap_exp", nkeys=2, weights=(1, 2), depth=6), RU("cap_const", nkeys=3, weights=(0, 1, 2), depth=6),
+      RS("cap_unit", depth=6), RS("cap2_w", weights=(0, 1, 2, 5), depth=6), RS("cap1_ttl", depth=7),
+      RS("cap2_tti", depth=7), RS("cap2_ttl_tti_w", weights=(1, 5), depth=6), RS("cap_const", weights=(1, 2), depth=6),
+      RS("cap1", nkeys=3, depth=6)]
+VQ = [("unsync-small", 120, 40), ("unsync-mid", 30, 120), ("sync-small", 120, 40), ("sync-mid", 30, 120),
+      ("sync-eager", 40, 60)]
+VT = [("unsync-small", 2000, 60), ("unsync-mid", 400, 400), ("sync-small", 2000, 60), ("sync-mid", 400, 400),
+      ("sync-eager", 600, 120)]
 
 QSLICES = {
-    "C01": ["cap2", "expiry2", "cap_const2", "cap1_ttl"],
-    "C03": ["cap2", "cap_weight2", "cap1_ttl", "cap2_tti"],
-    "C04": ["cap2", "cap_weight2", "cap_const2"],
-    "C05": ["expiry2", "cap1_ttl", "cap1_ttl0"],
-    "C06": ["expiry2", "cap2_tti"],
-    "C07": ["cap2k2", "expiry2", "cap_weight2"],
-    "C08": ["cap2", "cap_weight2", "cap1_ttl"],
-    "C10": ["cap2", "cap_weight2", "cap1_ttl", "cap2_tti"],
-    "C11": ["cap2", "cap1_ttl"],
+    "C01": ["cap2", "expiry2", "cap_const2", "s_cap1", "s_ttl_tti"],
+    "C03": ["cap2", "cap_weight2", "cap1_ttl", "cap2_tti", "s_cap1", "s_cap1_ttl", "s_cap2_tti"],
+    "C04": ["cap2", "cap_weight2", "cap_const2", "s_cap1", "s_cap2_w"],
+    "C05": ["expiry2", "cap1_ttl", "cap1_ttl0", "s_cap1_ttl", "s_ttl_tti"],
+    "C06": ["expiry2", "cap2_tti", "s_cap2_tti", "s_ttl_tti"],
+    "C07": ["cap2k2", "expiry2", "cap_weight2", "s_cap1", "s_ttl_tti"],
+    "C10": ["cap2", "cap_weight2", "cap1_ttl", "s_cap1", "s_cap2_w", "s_cap1_ttl"],
+    "C11": ["cap2", "cap1_ttl", "s_cap1", "s_cap1_ttl"],
     "C12": ["cap2", "cap_weight2", "cap2_tti"],
     "C13": ["cap2", "cap_weight2", "cap_const2"],
-    "C14": ["cap2", "cap_const2"],
-    "C16": ["cap2", "expiry2"],
+    "C16": ["cap2", "expiry2", "s_nocap", "s_ttl_tti"],
 }
 
 SEQ_PLANS = {}
@@ -130,6 +178,9 @@ class Ctx:
         self.drift = []
         self.notes = []
         self.model_failures = []
+        self.known_hits = {}
+        self.known_history_fails = set()
+        self.conform = 0
 
     def violation(self, path, what):
         if path not in [p for p, _ in self.violations]:
@@ -139,8 +190,14 @@ class Ctx:
 def stage_mc(ctx, runs):
     for i, c in enumerate(runs):
         name = "mc%d_%s" % (i, c.get("name", c["slice"]))
-        r = V.model_check(ctx.wd, name, c["module"], constants_mc(c, [ctx.prop]), ["Ok", "NoPanic"],
-                          constraints=["Stop"], workers=8, timeout=c.get("timeout", 600))
+        if c["module"] == "MC_Sync.tla":
+            # the intended design (all deviations off) must satisfy the monitor
+            r = V.model_check(ctx.wd, name, c["module"], constants_smc(c, [ctx.prop], dev=()), ["Ok", "NoPanic"],
+                              constraints=["Stop", "Depth"], view="View", workers=10,
+                              timeout=c.get("timeout", 600))
+        else:
+            r = V.model_check(ctx.wd, name, c["module"], constants_mc(c, [ctx.prop]), ["Ok", "NoPanic"],
+                              constraints=["Stop"], workers=10, timeout=c.get("timeout", 600))
         ctx.mc.append({k: r[k] for k in ("name", "distinct", "generated", "ok", "wall_s", "timeout")})
         ctx.states += r["distinct"]
         ctx.transitions += r["generated"]
@@ -151,10 +208,63 @@ def stage_mc(ctx, runs):
             ctx.model_failures.append((name, r["violated"] or r["error"], r["out"]))
 
 
-def judge_trace(ctx, name, trace, beh_path, nkeys, layer_i, source):
+def witness_of(ctx, events, upto):
+    """An open finding of this property whose witness event precedes the rejection, if any."""
+    for f in V.load_findings():
+        if f.get("status") != "open" or ctx.prop not in f.get("properties", []):
+            continue
+        tags = set(f.get("witness_tags", []))
+        for e in events[:upto + 1]:
+            for m in e.get("mx") or []:
+                if m.get("t") in tags:
+                    return f
+            if f.get("witness_snapshot") == "hidden_but_read_at_invalidation_reading":
+                sn = e.get("snap") or {}
+                va = sn.get("va", -1)
+                if va is not None and va >= 0:
+                    for r in sn.get("res", []):
+                        if r.get("lm", 0) < va <= r.get("la", -1):
+                            return f
+    return None
+
+
+def head_of(trace, max_events):
+    """A copy of the first behaviours of a trace file holding at most max_events lines."""
+    out = trace + ".head"
+    n = 0
+    with open(trace) as f, open(out, "w") as g:
+        buf = []
+        for line in f:
+            if line.startswith('{"') and '"ev":"Config"' in line and buf:
+                if n + len(buf) > max_events:
+                    buf = []
+                    break
+                g.writelines(buf)
+                n += len(buf)
+                buf = []
+            buf.append(line)
+        if buf and n + len(buf) <= max_events:
+            g.writelines(buf)
+            n += len(buf)
+    return out, n
+
+
+def judge_trace(ctx, name, trace, beh_path, nkeys, layer_i, source, layer_budget=None):
     """Runs the property's monitor (and Layer I) over a recorded trace; files violations."""
+    if layer_i and layer_budget:
+        # Layer I conformance on the head of the trace, the monitor on all of it
+        head, n = head_of(trace, layer_budget)
+        if n:
+            lr = V.trace_check(ctx.wd, name + "_layerI", head, [], nkeys, layer_i=True)
+            ctx.conform += lr["stats"]["conform"]
+            for (bid, line) in lr["drift"]:
+                if len(ctx.drift) < 20:
+                    ctx.drift.append({"source": source, "behaviour": bid, "line": line})
+        os.remove(head)
+        layer_i = False
     res = V.trace_check(ctx.wd, name, trace, [ctx.prop], nkeys, layer_i=layer_i)
     st = res["stats"]
+    ctx.conform += st["conform"]
     ctx.events += st["events"]
     ctx.nontrivial += st["nt"].get(ctx.prop, 0)
     lines = None
@@ -164,13 +274,17 @@ def judge_trace(ctx, name, trace, beh_path, nkeys, layer_i, source):
         if bid in bad_bids:
             continue
         bad_bids.add(bid)
-        if len(ctx.violations) >= 8:
+        if len(ctx.violations) >= 8 and not V.load_findings():
             continue
         if lines is None:
             lines = V.read_lines(trace)
             behs = {b.get("id", i): b for i, b in enumerate(V.read_lines(beh_path))}
         evs, idx = V.behaviour_events(lines, line)
         b = behs.get(bid, {})
+        f = witness_of(ctx, evs, idx)
+        if f is not None:
+            ctx.known_hits[f["id"]] = ctx.known_hits.get(f["id"], 0) + 1
+            continue
         path = V.write_replay(p, b.get("cfg"), b.get("ops"), evs, idx, source)
         ctx.violation(path, "event %d of behaviour %d rejected by monitor %s" % (idx, bid, p))
     for (bid, line) in res["drift"]:
@@ -184,8 +298,12 @@ def stage_r(ctx, runs):
     for i, c in enumerate(runs):
         name = "r%d_%s" % (i, c["slice"])
         cfg = os.path.join(ctx.wd, name + ".cfg")
-        V.write_cfg(cfg, constants=constants_mc(c, [], emit=True, depth=c["depth"], period=1280),
-                    constraints=["Depth"], view="View")
+        if c["module"] == "MC_Sync.tla":
+            # the model of the code as it is (open findings on), real constants
+            V.write_cfg(cfg, constants=constants_smc(c, [], emit=True, real=True), constraints=["Depth"], view="View")
+        else:
+            V.write_cfg(cfg, constants=constants_mc(c, [], emit=True, depth=c["depth"], period=1280),
+                        constraints=["Depth"], view="View")
         rc, outp, wall = V.run_tlc(ctx.wd, c["module"], cfg, workers=1, timeout=900, out=name + ".out")
         r = V.parse_mc(outp)
         if not r["ok"]:
@@ -228,11 +346,31 @@ def stage_v(ctx, runs):
         trace = os.path.join(ctx.wd, name + ".trace.ndjson")
         summary, crashes = V.replay_file(beh, trace)
         nkeys = json.loads(open(beh).readline())["cfg"]["nkeys"]
-        judge_trace(ctx, name, trace, beh, nkeys, True, "random:%s seed=%d" % (profile, ctx.seed * 1000 + i))
+        judge_trace(ctx, name, trace, beh, nkeys, True, "random:%s seed=%d" % (profile, ctx.seed * 1000 + i),
+                    layer_budget=(1500 if ctx.tier == "quick" else 12000) if profile.startswith("sync") else None)
         if len(ctx.samples) < 5:
             b = json.loads(open(beh).readline())
             ctx.samples.append({"kind": "random history (%s)" % profile, "cfg": b["cfg"], "ops": b["ops"][:25]})
         os.remove(trace)
+
+
+def stage_findings(ctx):
+    """Open findings of this property: run the recorded history; report it while it still fails."""
+    for f in V.load_findings():
+        if f.get("status") != "open" or "history" not in f:
+            continue
+        if ctx.prop not in f.get("properties", []):
+            continue
+        name = "finding_" + f["id"]
+        beh = os.path.join(ctx.wd, name + ".beh.ndjson")
+        with open(beh, "w") as g:
+            g.write(json.dumps({"id": 0, "cfg": f["history"]["cfg"], "ops": f["history"]["ops"]}) + "\n")
+        trace = os.path.join(ctx.wd, name + ".trace.ndjson")
+        V.replay_file(beh, trace)
+        res = V.trace_check(ctx.wd, name, trace, [ctx.prop], f["history"]["cfg"]["nkeys"], layer_i=False)
+        if res["viol"]:
+            ctx.known_hits[f["id"]] = ctx.known_hits.get(f["id"], 0) + 1
+            ctx.known_history_fails.add(f["id"])
 
 
 def finish(ctx, level_note_extra=""):
@@ -252,6 +390,7 @@ def finish(ctx, level_note_extra=""):
         "model_checking_runs": ctx.mc,
         "behaviours_replayed": ctx.replayed,
         "events_judged_by_monitor": ctx.events,
+        "events_conforming_to_layer_I": ctx.conform,
         "drift_events": ctx.drift,
         "model_transfer": not ctx.drift,
         "known_findings": ctx.known,
@@ -264,8 +403,13 @@ def finish(ctx, level_note_extra=""):
                      wall, len(ctx.violations))
     for d in ctx.drift[:5]:
         log("DRIFT layer=I at=%s" % json.dumps(d))
-    for k in ctx.known:
-        print("KNOWN-FINDING: property=%s %s" % (ctx.prop, k))
+    for f in V.load_findings():
+        if f.get("status") == "open" and f["id"] in ctx.known_hits:
+            ctx.known.append({"id": f["id"], "hits": ctx.known_hits[f["id"]],
+                              "recorded_history_still_fails": f["id"] in ctx.known_history_fails})
+            print("KNOWN-FINDING: property=%s %s: %s (rejections attributed by witness %s: %d)" % (
+                ctx.prop, f["id"], f["what"], "/".join(f.get("witness_tags", [f.get("witness_snapshot", "")])),
+                ctx.known_hits[f["id"]]))
     if ctx.model_failures and not ctx.violations:
         for (name, what, out) in ctx.model_failures:
             log("MODEL-LEVEL FAILURE in %s: %s (see %s)" % (name, what, out))
@@ -295,6 +439,7 @@ def run_property(prop, tier, seed):
     stage_mc(ctx, plan.get("mc", []))
     stage_r(ctx, plan.get("r", []))
     stage_v(ctx, plan.get("v", []))
+    stage_findings(ctx)
     return finish(ctx)
 
 
@@ -318,23 +463,3 @@ def run_replay(path):
     return 0
 
 
-# ---------------------------------------------------------------------------
-# model-checking configurations of MC_Sync
-
-
-def S(slice_, nkeys=2, vals=(1, 2), weights=(1,), maxt=2, depth=7, timeout=600, dev=None, flush=2, log_=3):
-    return dict(module="MC_Sync.tla", slice=slice_, nkeys=nkeys, vals=set(vals), weights=set(weights),
-                maxt=maxt, depth=depth, timeout=timeout, dev=dev, flush=flush, log=log_)
-
-
-def constants_smc(c, props, emit=False, real=False, dev=None):
-    d = V.SDEV if dev is None else dev
-    k = {"NKeys": c["nkeys"], "MaxInfo": 3 * c["nkeys"] + 2, "Period": 1280 if real else 6,
-         "Dev": set(c["dev"] if c.get("dev") is not None else d), "Slice": c["slice"], "Vals": c["vals"],
-         "Weights": c["weights"], "MaxT": c["maxt"], "CheckProps": set(props), "Emit": emit,
-         "MaxDepth": c["depth"]}
-    if real:
-        k.update({"RLog": 384, "WLog": 384, "Flush": 64, "MaxRepeats": 4, "SBatch": 500})
-    else:
-        k.update({"RLog": c["log"], "WLog": c["log"], "Flush": c["flush"], "MaxRepeats": 4, "SBatch": 6})
-    return k
